@@ -9,6 +9,7 @@ global size_of usize == 8;
 const DRIFT_LIMIT : usize = 1024 ;
 
 
+
 spec fn probe_at(p0: int, s: int, j: int, size: int) -> int { (p0 + j * s) % size }
 pub uninterp spec fn hash_spec<T>(item: T) -> u64;
 spec fn eq_law<T: Eq>() -> bool { <T as PartialEqSpec>::obeys_eq_spec() && forall|a: T, b: T| #[trigger] a.eq_spec(&b) == (a == b) }
@@ -124,6 +125,7 @@ struct ReversePurgeItemHashMap < T > {
 lg_length : u8 , load_threshold : usize , keys : Vec < Option < T >> , values : Vec < u64 > , states : Vec < u16 > , num_active : usize , }
 
 
+
 impl<T> ReversePurgeItemHashMap<T> {
     spec fn shape(&self) -> bool { fshape(self.keys@, self.values@, self.states@, self.lg_length) }
     spec fn wf(&self) -> bool {
@@ -199,16 +201,20 @@ impl<T: Eq + Hash> ReversePurgeItemHashMap<T> {
 self . keys . len ( ) }
 
 
+
     fn lg_length ( & self ) -> ( r : u8 ) ensures r == self . lg_length {
 self . lg_length }
+
 
 
     fn capacity ( & self ) -> ( r : usize ) ensures r == self . load_threshold {
 self . load_threshold }
 
 
+
     fn num_active ( & self ) -> ( r : usize ) ensures r == self . num_active {
 self . num_active }
+
 
 }
 
@@ -216,6 +222,7 @@ self . num_active }
 #[verifier::reject_recursive_types(T)]
 struct ReversePurgeItemIter < 'a , T > {
 map : & 'a ReversePurgeItemHashMap < T > , index : usize , count : usize , stride : usize , mask : usize , }
+
 
 
 impl<'a, T> ReversePurgeItemIter<'a, T> {
@@ -266,19 +273,25 @@ spec fn cap_of(lg: u8) -> nat { pow2(lg as nat) * 3 / 4 }
 
 const LG_MIN_MAP_SIZE : u8 = 3 ;
 
+
 const SAMPLE_SIZE : usize = 1024 ;
+
 
 const LOAD_FACTOR_NUMERATOR : usize = 3 ;
 
+
 const LOAD_FACTOR_DENOMINATOR : usize = 4 ;
+
 
 
 enum ErrorType {
 NoFalseNegatives , NoFalsePositives , }
 
 
+
 struct Row < T > {
 item : T , estimate : u64 , upper_bound : u64 , lower_bound : u64 , }
+
 
 
 // R15: `rows.sort_by_key(|row| std::cmp::Reverse(row.estimate))` -- std sort leaf: a permutation, descending by estimate
@@ -291,6 +304,7 @@ fn vx_sort_rows_desc<T>(rows: &mut Vec<Row<T>>)
 #[verifier::reject_recursive_types(T)]
 struct FrequentItemsSketch < T > {
 lg_max_map_size : u8 , cur_map_cap : usize , offset : u64 , stream_weight : u64 , sample_size : usize , hash_map : ReversePurgeItemHashMap < T > , }
+
 
 
 impl<T: Eq + Hash> FrequentItemsSketch<T> {
@@ -342,79 +356,65 @@ lg_max_map_size : lg_max , cur_map_cap , offset : 0 , stream_weight : 0 , sample
 }
 
 
-    fn new(max_map_size: usize) -> (r: Self)
-      requires eq_law::<T>(),
-        // documented panic: not a power of two; and the range in which `(1 << lg) * 3` cannot overflow / the map is specified
-        exists|lg: u8| lg <= 40 && max_map_size == pow2(lg as nat),
-      ensures r.wf(), max_map_size == pow2(r.lg_max_map_size as nat) || r.lg_max_map_size == LG_MIN_MAP_SIZE,
-        /*@C07.empty_model*/ r.models(Seq::<(T, u64)>::empty()),
-    {
-        let ghost lg = choose|lg: u8| lg <= 40 && max_map_size == pow2(lg as nat);
-        assert!(max_map_size.is_power_of_two());
-        let lg_max_map_size = max_map_size.trailing_zeros() as u8;
-        Self::with_lg_map_sizes(lg_max_map_size, LG_MIN_MAP_SIZE)
-    }
 
-    fn current_map_capacity(&self) -> (r: usize)
-      ensures r == self.cur_map_cap,
-    {
-        self.cur_map_cap
-    }
+    fn new ( max_map_size : usize ) -> ( r : Self ) requires eq_law :: < T > ( ) , exists | lg : u8 | lg <= 40 && max_map_size == pow2 ( lg as nat ) , ensures r . wf ( ) , max_map_size == pow2 ( r . lg_max_map_size as nat ) || r . lg_max_map_size == LG_MIN_MAP_SIZE ,
+/*@C07.empty_model*/ r . models ( Seq :: < ( T , u64 ) > :: empty ( ) ) , {
+let ghost lg = choose | lg : u8 | lg <= 40 && max_map_size == pow2 ( lg as nat ) ;
+assert! ( max_map_size . is_power_of_two ( ) ) ;
+let lg_max_map_size = max_map_size . trailing_zeros ( ) as u8 ;
+Self :: with_lg_map_sizes ( lg_max_map_size , LG_MIN_MAP_SIZE ) }
 
-    fn lg_max_map_size(&self) -> (r: u8)
-      ensures r == self.lg_max_map_size,
-    {
-        self.lg_max_map_size
-    }
 
-    fn lg_cur_map_size(&self) -> (r: u8)
-      ensures r == self.hash_map.lg_length,
-    {
-        self.hash_map.lg_length()
-    }
+    fn current_map_capacity ( & self ) -> ( r : usize ) ensures r == self . cur_map_cap , {
+self . cur_map_cap }
 
-    fn update(&mut self, item: T)
-      requires old(self).wf(), old(self).stream_weight + 1 <= u64::MAX,
-      ensures final(self).wf(),
-        /*@C07.update*/ forall|h: Seq<(T, u64)>| #[trigger] old(self).models(h) ==> final(self).models(h.push((item, 1u64))),
-        /*@C07.update_total*/ final(self).stream_weight == old(self).stream_weight + 1,
-        /*@C18.fi_capacity*/ final(self).hash_map.num_active <= cap_of(final(self).lg_max_map_size),
-        final(self).lg_max_map_size == old(self).lg_max_map_size,
-    {
-        self.update_with_count(item, 1);
-    }
 
-    fn reset(&mut self)
-      requires old(self).wf(),
-      ensures final(self).wf(), final(self).lg_max_map_size == old(self).lg_max_map_size,
-        /*@C07.empty_model*/ final(self).models(Seq::<(T, u64)>::empty()),
-        /*@C18.fi_capacity*/ final(self).hash_map.num_active <= cap_of(final(self).lg_max_map_size),
-    {
-        *self = Self::with_lg_map_sizes(self.lg_max_map_size, LG_MIN_MAP_SIZE);
-    }
+    fn lg_max_map_size ( & self ) -> ( r : u8 ) ensures r == self . lg_max_map_size , {
+self . lg_max_map_size }
 
-    fn frequent_items(&self, error_type: ErrorType) -> (rows: Vec<Row<T>>)
-      where T: Clone,
-      requires self.wf(),
-      ensures
-        /*@C07.rows_bounds*/ forall|i: int| 0 <= i < rows@.len() ==> #[trigger] self.row_ok(error_type, self.offset, rows@[i]),
-        /*@C07.rows_complete*/ forall|x: T| #[trigger] self.selected(error_type, self.offset, x) ==> exists|i: int| 0 <= i < rows@.len() && #[trigger] rows@[i].item == x,
-        /*@C07.nfp*/ error_type is NoFalsePositives ==> forall|h: Seq<(T, u64)>, i: int| #[trigger] self.models(h) && 0 <= i < rows@.len() ==> truth(h, #[trigger] rows@[i].item) > self.offset,
-        /*@C07.nfn*/ error_type is NoFalseNegatives ==> forall|h: Seq<(T, u64)>, x: T| #[trigger] self.models(h) && #[trigger] truth(h, x) > self.offset ==> exists|i: int| 0 <= i < rows@.len() && #[trigger] rows@[i].item == x,
-    {
-        proof { assert(self.thr(self.offset) == self.offset); }
-        self.frequent_items_with_threshold(error_type, self.offset)
-    }
+
+    fn lg_cur_map_size ( & self ) -> ( r : u8 ) ensures r == self . hash_map . lg_length , {
+self . hash_map . lg_length ( ) }
+
+
+    fn update ( & mut self , item : T ) requires old ( self ) . wf ( ) , old ( self ) . stream_weight + 1 <= u64 :: MAX , ensures final ( self ) . wf ( ) ,
+/*@C07.update*/ forall | h : Seq < ( T , u64 ) > | # [ trigger ] old ( self ) . models ( h ) ==> final ( self ) . models ( h . push ( ( item , 1u64 ) ) ) ,
+/*@C07.update_total*/ final ( self ) . stream_weight == old ( self ) . stream_weight + 1 ,
+/*@C18.fi_capacity*/ final ( self ) . hash_map . num_active <= cap_of ( final ( self ) . lg_max_map_size ) , final ( self ) . lg_max_map_size == old ( self ) . lg_max_map_size , {
+self . update_with_count ( item , 1 ) ;
+}
+
+
+    fn reset ( & mut self ) requires old ( self ) . wf ( ) , ensures final ( self ) . wf ( ) , final ( self ) . lg_max_map_size == old ( self ) . lg_max_map_size ,
+/*@C07.empty_model*/ final ( self ) . models ( Seq :: < ( T , u64 ) > :: empty ( ) ) ,
+/*@C18.fi_capacity*/ final ( self ) . hash_map . num_active <= cap_of ( final ( self ) . lg_max_map_size ) , {
+* self = Self :: with_lg_map_sizes ( self . lg_max_map_size , LG_MIN_MAP_SIZE ) ;
+}
+
+
+    fn frequent_items ( & self , error_type : ErrorType ) -> ( rows : Vec < Row < T >> ) where T : Clone , requires self . wf ( ) , ensures
+/*@C07.rows_bounds*/ forall | i : int | 0 <= i < rows @ . len ( ) ==> # [ trigger ] self . row_ok ( error_type , self . offset , rows @ [ i ] ) ,
+/*@C07.rows_complete*/ forall | x : T | # [ trigger ] self . selected ( error_type , self . offset , x ) ==> exists | i : int | 0 <= i < rows @ . len ( ) && # [ trigger ] rows @ [ i ] . item == x ,
+/*@C07.nfp*/ error_type is NoFalsePositives ==> forall | h : Seq < ( T , u64 ) > , i : int | # [ trigger ] self . models ( h ) && 0 <= i < rows @ . len ( ) ==> truth ( h , # [ trigger ] rows @ [ i ] . item ) > self . offset ,
+/*@C07.nfn*/ error_type is NoFalseNegatives ==> forall | h : Seq < ( T , u64 ) > , x : T | # [ trigger ] self . models ( h ) && # [ trigger ] truth ( h , x ) > self . offset ==> exists | i : int | 0 <= i < rows @ . len ( ) && # [ trigger ] rows @ [ i ] . item == x , {
+proof {
+assert ( self . thr ( self . offset ) == self . offset ) ;
+}
+self . frequent_items_with_threshold ( error_type , self . offset ) }
+
 
     fn is_empty ( & self ) -> ( r : bool ) ensures r == ( self . hash_map . num_active == 0 ) , {
 self . hash_map . num_active ( ) == 0 }
 
+
     fn num_active_items ( & self ) -> ( r : usize ) ensures r == self . hash_map . num_active , {
 self . hash_map . num_active ( ) }
+
 
     fn total_weight ( & self ) -> ( r : u64 ) ensures
 /*@C07.total_weight*/ forall | h : Seq < ( T , u64 ) > | # [ trigger ] self . models ( h ) ==> r == total ( h ) , {
 self . stream_weight }
+
 
 
     fn estimate ( & self , item : & T ) -> ( r : u64 ) requires self . wf ( ) , ensures
@@ -434,9 +434,11 @@ else {
 }
 
 
+
     fn lower_bound ( & self , item : & T ) -> ( r : u64 ) requires self . wf ( ) , ensures
 /*@C07.lb*/ forall | h : Seq < ( T , u64 ) > | # [ trigger ] self . models ( h ) ==> r <= truth ( h , * item ) , r == self . lb_spec ( * item ) , {
 self . hash_map . get ( item ) }
+
 
 
     fn upper_bound ( & self , item : & T ) -> ( r : u64 ) requires self . wf ( ) , ensures
@@ -447,9 +449,11 @@ lemma_val_le_sum ( self . hash_map , * item ) ;
 self . hash_map . get ( item ) + self . offset }
 
 
+
     fn maximum_error ( & self ) -> ( r : u64 ) ensures
 /*@C07.width*/ forall | x : T | # [ trigger ] self . ub_spec ( x ) - self . lb_spec ( x ) == r , {
 self . offset }
+
 
 
     fn maximum_map_capacity ( & self ) -> ( r : usize ) requires self . lg_max_map_size <= 40 , ensures r == cap_of ( self . lg_max_map_size ) , {
@@ -457,6 +461,7 @@ proof {
 lemma_shl ( self . lg_max_map_size ) ;
 }
 ( 1usize << self . lg_max_map_size ) * LOAD_FACTOR_NUMERATOR / LOAD_FACTOR_DENOMINATOR }
+
 
 
     fn update_with_count ( & mut self , item : T , count : u64 ) requires old ( self ) . wf ( ) , old ( self ) . stream_weight + count <= u64 :: MAX , ensures final ( self ) . wf ( ) ,
@@ -490,6 +495,7 @@ assert ( old ( self ) . lb_spec ( x ) <= truth ( h , x ) <= old ( self ) . ub_sp
 }
 self . maybe_resize_or_purge ( ) ;
 }
+
 
 
     fn merge ( & mut self , other : & Self ) where T : Clone , requires old ( self ) . wf ( ) , other . wf ( ) , old ( self ) . stream_weight + other . stream_weight <= u64 :: MAX , ensures final ( self ) . wf ( ) ,
@@ -572,6 +578,7 @@ assert ( other . lb_spec ( x ) <= truth ( h2 , x ) <= other . ub_spec ( x ) ) ;
 }
 }
 }
+
 
 
     spec fn thr(&self, threshold: u64) -> u64 { if threshold >= self.offset { threshold } else { self.offset } }
@@ -676,6 +683,7 @@ assert ( self . lb_spec ( rows @ [ i ] . item ) <= truth ( h , rows @ [ i ] . it
 rows }
 
 
+
     fn maybe_resize_or_purge ( & mut self ) requires old ( self ) . wf_but ( 1 ) , ensures final ( self ) . wf ( ) , final ( self ) . stream_weight == old ( self ) . stream_weight , final ( self ) . lg_max_map_size == old ( self ) . lg_max_map_size ,
 /*@C18.fi_capacity*/ final ( self ) . hash_map . num_active <= cap_of ( final ( self ) . lg_max_map_size ) ,
 /*@C07.purge_keeps_bracket*/ forall | h : Seq < ( T , u64 ) > | # [ trigger ] old ( self ) . models ( h ) ==> final ( self ) . models ( h ) , {
@@ -712,6 +720,7 @@ lemma_cap_mono ( self . hash_map . lg_length , self . lg_max_map_size ) ;
 }
 }
 }
+
 
 }
 
